@@ -704,10 +704,26 @@ def _twin(op, scratch, entropy, draws, seed_override=None):
     return out, g0 == g1, tw.sites
 
 
+def _purge_batchie_modules():
+    """Simulated process boundary for module-level state: every batchie module is dropped and
+    re-imported on next use, so caches kept in module globals die as they would with the process."""
+    for k in [k for k in sys.modules if k == "batchie" or k.startswith("batchie.")]:
+        del sys.modules[k]
+
+
 def _c18(plan, scratch, log, stats, violation):
     for i, op in enumerate(plan["steps"]):
         label = op["kind"]
         stats.steps += 1
+        # history: the same operation under ANOTHER seed runs first in this process ...
+        _purge_batchie_modules()
+        outP = None
+        try:
+            outP, _, _ = _twin(op, scratch, op["eA"], 0, seed_override=op["seed"] + 1)
+        except pipe.HarnessError:
+            raise
+        except Exception:
+            pass
         try:
             outA, keptA, sitesA = _twin(op, scratch, op["eA"], 0)
         except pipe.HarnessError:
@@ -734,14 +750,25 @@ def _c18(plan, scratch, log, stats, violation):
         if not (keptA and keptB):
             violation("C18.global-state-perturbed", f"{label}|{sites}",
                       f"{label}: the process-global random state changed during the operation; global draws at: {sites}")
-        # non-triviality: does the operation consume its generator at all?
+        # ... and the same operation in a process without that history (fresh module state) must agree
+        _purge_batchie_modules()
         try:
-            outC, _, _ = _twin(op, scratch, op["eA"], 0, seed_override=op["seed"] + 1)
-            if outC != outA:
-                stats.key(label, op.get("advance", 0) > 0)
-                stats.probe("randomness_consumed:" + label.split(":")[0])
-        except Exception:
-            pass
+            outF, _, _ = _twin(op, scratch, op["eA"], 0)
+            stats.oracle_evals += 1
+            stats.fault("process.fresh-module-state")
+            log.ev("fresh-state", i, label, outF == outA)
+            if outF != outA:
+                violation("C18.twin-output", f"{label}|process-state-dependence",
+                          f"{label}: with identical inputs and seed {op['seed']} the output depends on what ran earlier in the same process "
+                          f"(the same operation under seed {op['seed'] + 1}); a fresh process gives another result")
+        except pipe.HarnessError:
+            raise
+        except Exception as e:
+            violation("C18.twin-output", f"{label}|fresh-state-raised:{type(e).__name__}", f"{label}: raised {e!r} in a fresh module state")
+        # non-triviality: does the operation consume its generator at all?
+        if outP is not None and outP != outA:
+            stats.key(label, op.get("advance", 0) > 0)
+            stats.probe("randomness_consumed:" + label.split(":")[0])
     if plan.get("fresh_twin"):
         _fresh_twins(plan, scratch, log, stats, violation)
 
